@@ -123,7 +123,7 @@ def parse_case(tree, rng=None, fancy=0.0, version="2.1"):
     return {"kind": "parse", "cst": tree, "text": G.text_of(G.y_fb(tree), rng, fancy), "version": version}
 
 
-ENV_KEYS = ("tz", "forms", "alt_k", "hashseed")      # how a case is to be run (alternate run): kept by derived cases
+ENV_KEYS = ("tz", "forms", "alt_k", "hashseed", "hist")      # how a case is to be run (alternate run): kept by derived cases
 
 
 def carry(src, c):
@@ -671,6 +671,10 @@ def check(run):
         if i in in20 and n < len(cases):
             alt_cases.append(dict(cases[i], version="2.0", **env))
             alt_of.append(i)
+        if cases[i]["kind"] == "prog" and n % 3:
+            # a history: paths built from a prefix of their steps, the object printed, the rest added through
+            # ObjectPath.merge / by extending property_path, then observed
+            env["hist"] = "merge" if n % 3 == 1 else "extend"
         alt_cases.append(dict(cases[i], **env))
         alt_of.append(i)
     n_alt_main = len(alt_cases)
@@ -686,7 +690,7 @@ def check(run):
             if i is None:
                 d = compare_parse(c2, r2, lines20[n - n_alt_main], Hashed) if lines20 else []
                 if d:
-                    dis_alt.append({"case": c2["text"], "version": "2.0", "run": {k: c2[k] for k in ENV_KEYS},
+                    dis_alt.append({"case": c2["text"], "version": "2.0", "run": {k: c2[k] for k in ENV_KEYS if k in c2},
                                     "differences": [w for w, _, _ in d[:3]]})
                 continue
             d = compare_parse(c2, r2, lines[i], Hashed) if c2["kind"] == "parse" else compare_prog(c2, r2, lines[i], Hashed)
@@ -695,7 +699,7 @@ def check(run):
                 same = all(r2.get(k) == impl[i].get(k) for k in ("ast", "str", "m_ast", "re_ast", "re_str"))
             if d or same is False:
                 dis_alt.append({"case": c2.get("text", c2.get("spec")), "version": c2["version"],
-                                "run": {k: c2[k] for k in ENV_KEYS}, "differences": [w for w, _, _ in d[:3]] or ["differs from the default run"]})
+                                "run": {k: c2[k] for k in ENV_KEYS if k in c2}, "differences": [w for w, _, _ in d[:3]] or ["differs from the default run"]})
     run.coverage["alternate_run_cases"] = len(alt_cases)
     if dis_alt:
         run.broken.append(Broken("correspondence", "alternate run (time zone, hash seed, order, argument forms) vs the model / the default run",
